@@ -1599,3 +1599,152 @@ Proof.
     assert (E4' : s_emb s1 = []) by congruence. rewrite E1', E2', E3', E4' in Xf. simpl in Xf. lia.
   - intros e. rewrite C6h. apply Z5.
 Qed.
+
+(* a connection that is shut down: only the handles hold references *)
+Lemma RS_frame : forall s s1, RS s -> s_qs s1 = s_qs s -> s_ans s1 = s_ans s -> s_exp s1 = s_exp s -> s_emb s1 = s_emb s ->
+  s_boot s1 = s_boot s -> s_lrefs s1 = s_lrefs s -> s_handles s1 = s_handles s -> RS s1.
+Proof. intros s s1 (A & B & C & D & E & F & G) Q1 Q2 Q3 Q4 Q5 Q6 Q7. unfold RS. rewrite Q1, Q2, Q3, Q4, Q5, Q6, Q7. repeat split; assumption. Qed.
+
+Lemma HE_ge : forall e l n h, nth_error l n = Some h -> he e h <= HE e l.
+Proof.
+  intros e l. induction l as [|a l IH]; intros n h H; destruct n; simpl in H; try discriminate.
+  - inversion H; subst. simpl. pose proof (HE_nonneg e l). lia.
+  - specialize (IH _ _ H). simpl. assert (0 <= he e a) by (destruct a; simpl; try lia; apply ce_nonneg). lia.
+Qed.
+
+Lemma rs_handler : forall e s s0 o0 ab, handler cfg_fixed e s = Ok (s0, o0, ab) -> s_shut s = true -> is_peer e = false -> RS s -> RS s0 /\ s_shut s0 = true.
+Proof.
+  intros e s s0 o0 ab H Hs Hp R. pose proof R as (Q & A & E & M & B & L & Z).
+  destruct e; simpl in Hp; try discriminate; simpl in H.
+  - unfold app_bootstrap in H. rewrite Hs in H. inversion H; subst. split; [|exact Hs].
+    unfold RS. cbn [s_qs s_ans s_exp s_emb s_boot s_lrefs s_handles set_handles]. split; [exact Q|split; [exact A|split; [exact E|split; [exact M|split; [exact B|split]]]]].
+    + intros j. rewrite HND_app. simpl hw. rewrite L. lia.
+    + intros e. rewrite HE_app. simpl he. rewrite Z. reflexivity.
+  - unfold app_call in H. destruct (hget h s) as [q0|x|].
+    + unfold app_pipe, next_call in H. cbn [s_shut set_ncall] in H. rewrite Hs in H. inversion H; subst. split; [exact R|exact Hs].
+    + destruct x; unfold next_call in H; try (inversion H; subst; split; [exact R|exact Hs]; fail).
+      cbn [s_shut set_ncall] in H. rewrite Hs in H. inversion H; subst. split; [exact R|exact Hs].
+    + unfold next_call in H. inversion H; subst. split; [exact R|exact Hs].
+  - unfold app_pipe, next_call in H. cbn [s_shut set_ncall] in H. rewrite Hs in H. inversion H; subst. split; [exact R|exact Hs].
+  - unfold app_return in H. rewrite A in H. cbn [find_running] in H. destruct (aget k (s_lcalls s)); inversion H; subst; (split; [exact R|exact Hs]).
+  - unfold app_release in H. destruct (hget h s) as [qid|x|] eqn:Eh; [| |inversion H; subst; split; [exact R|exact Hs]].
+    + cbn [s_shut set_handle set_handles] in H. rewrite Hs in H. inversion H; subst. split; [|exact Hs].
+      pose proof (hget_znth _ _ _ Eh ltac:(discriminate)) as Hz. pose proof (znth_some _ _ _ _ Hz) as [Hr Hn].
+      unfold RS, set_handle. cbn [s_qs s_ans s_exp s_emb s_boot s_lrefs s_handles set_handles].
+      split; [exact Q|split; [exact A|split; [exact E|split; [exact M|split; [exact B|split]]]]].
+      * intros j. rewrite (HND_replace j _ _ HGone _ Hn). simpl hw. rewrite L. lia.
+      * intros e. rewrite (HE_replace e _ _ HGone _ Hn). simpl he. rewrite Z. lia.
+    + destruct (release_cap cfg_fixed x _) as [[s1 o]| |] eqn:E1; cbn [bind] in H; try discriminate. inversion H; subst.
+      pose proof (hget_znth _ _ _ Eh ltac:(discriminate)) as Hz. pose proof (znth_some _ _ _ _ Hz) as [Hr Hn].
+      assert (Nx : not_emb x).
+      { destruct x; try exact I. pose proof (HE_ge e _ _ _ Hn) as G. simpl in G. rewrite Z.eqb_refl, Z in G. lia. }
+      destruct (rf_release_cap_ne _ _ _ _ E1 Nx) as (A1 & (B1 & _) & (C1 & C2 & C3 & _) & X1). pose proof (aux_release_cap _ _ _ _ _ E1) as AQ.
+      unfold FA in A1. set (sa := set_handle h HGone s) in *.
+      split; [|change (x_shut (aux_of s0) = true); rewrite AQ; exact Hs].
+      unfold RS. rewrite A1, B1, C1, C2, C3. cbn [sa s_ans s_exp s_emb s_boot s_handles set_handle set_handles].
+      split; [change (x_qs (aux_of s0) = []); rewrite AQ; exact Q|split; [exact A|split; [exact E|split; [exact M|split; [exact B|split]]]]].
+      * intros j. specialize (X1 j). unfold X, RC in X1. rewrite A1, B1, C1, C2, C3 in X1.
+        cbn [sa s_boot s_exp s_ans s_handles s_emb s_lrefs set_handle set_handles] in X1. rewrite A, E, M, B in X1. simpl in X1.
+        rewrite (HND_replace j _ _ HGone _ Hn) in *. simpl hw in *. specialize (L j). lia.
+      * intros e. rewrite (HE_replace e _ _ HGone _ Hn). simpl he. rewrite Z.
+        replace (ce e x) with 0 by (destruct x; simpl in *; try reflexivity; contradiction). lia.
+  - unfold app_cancel in H. rewrite Hs in H. inversion H; subst. split; [exact R|exact Hs].
+  - unfold app_hold, next_call in H. destruct (hget h _) as [q0|x|]; try (inversion H; subst; split; [exact R|exact Hs]; fail).
+    destruct x; try (inversion H; subst; split; [exact R|exact Hs]; fail). cbn [s_shut set_ncall] in H. rewrite Hs in H. cbn [orb] in H.
+    inversion H; subst. split; [exact R|exact Hs].
+  - unfold app_unhold in H. rewrite Q in H. cbn [find_held] in H. inversion H; subst. split; [exact R|exact Hs].
+  - inversion H; subst. split; [exact R|exact Hs].
+Qed.
+
+(* ---------------------------------------------------------------- histories *)
+Definition CI (s : state) : Prop := if s_shut s then RS s else RI s.
+
+Lemma CI_init : forall boot, CI (init boot).
+Proof.
+  intros boot. unfold CI. simpl. split; [|split; [|split; [|split; [|split]]]].
+  - intros j. unfold X, RC. cbn [init s_boot s_exp s_ans s_handles s_emb s_lrefs EXP ANS HND EMB]. destruct boot; cbn [andb]; [|reflexivity].
+    unfold cget. cbn [aget]. rewrite (Z.eqb_sym 0 j). destruct (j =? 0); reflexivity.
+  - intros e. simpl. rewrite (tget_out _ [] e ltac:(simpl; lia)). split; reflexivity.
+  - split; [constructor|split; [intros id a []|split; [intros x w []|]]]. split; [split; [reflexivity|constructor]|intros x []].
+  - intros em [].
+  - split; [split; [reflexivity|constructor]|intros x []].
+  - intros qid q h Hq. simpl in Hq. rewrite (tget_out _ [] qid ltac:(simpl; lia)) in Hq. discriminate.
+Qed.
+
+Lemma step_CI : forall s e W s1 o, sinv s W -> CI s -> W + ev_work e < LIM -> env_ok s e = true ->
+  step cfg_fixed s e = Ok (s1, o) -> CI s1.
+Proof.
+  intros s e W s1 o I C Hb Henv Hstep. unfold step in Hstep. unfold sinv in I. unfold CI in C.
+  destruct (s_shut s) eqn:Hs.
+  - destruct (is_peer e) eqn:Hp; simpl in Hstep.
+    + inversion Hstep; subst. unfold CI. cbn [s_shut set_out]. rewrite Hs. exact C.
+    + destruct e; simpl in Hp; try discriminate;
+        try (match type of Hstep with context [handler cfg_fixed ?ev s] =>
+               destruct (handler cfg_fixed ev s) as [[[s0 o0] ab]| |] eqn:E; cbn [bind] in Hstep; try discriminate;
+               destruct (rs_handler ev s s0 o0 ab E Hs eq_refl C) as [R0 S0] end;
+             rewrite S0 in Hstep; rewrite andb_false_r in Hstep; cbn [bind] in Hstep; inversion Hstep; subst;
+             unfold CI; cbn [s_shut set_out]; rewrite S0; exact R0).
+      inversion Hstep; subst. unfold CI. cbn [s_shut set_out]. rewrite Hs. exact C.
+  - destruct I as [Li P]. assert (L : live s) by (split; assumption). simpl in Hstep.
+    assert (SHUT : forall abort s0 o0, RI s0 -> (do '(sx, ox) <- (do '(s2, o2) <- do_shutdown cfg_fixed abort s0; Ok (s2, o0 ++ o2)); Ok (set_out (rev ox ++ s_out sx) sx, ox)) = Ok (s1, o) -> CI s1).
+    { intros abort s0 o0 R0 HH. destruct (shutdown_total abort s0) as (s2 & o2 & H2 & _ & S2). pose proof (do_shutdown_RS _ _ _ _ H2 R0) as RS2.
+      rewrite H2 in HH. cbn [bind] in HH. inversion HH; subst. unfold CI. cbn [s_shut set_out]. rewrite S2. exact RS2. }
+    assert (GEN : forall ev, ev = e -> match ev with MAbort | AClose => False | _ => True end ->
+              (do '(sx, ox) <- (do '(sa, o1, abort) <- handler cfg_fixed ev s;
+                   if abort && negb (s_shut sa) then do '(s2, o2) <- do_shutdown cfg_fixed true sa; Ok (s2, o1 ++ o2) else Ok (sa, o1));
+                 Ok (set_out (rev ox ++ s_out sx) sx, ox)) = Ok (s1, o) -> CI s1).
+    { intros ev -> Hne HH.
+      pose proof (handler_live e s L ltac:(lia) Henv) as PL.
+      destruct (handler cfg_fixed e s) as [[[s0 o0] ab]| |] eqn:EH; simpl in PL; try contradiction. cbn [bind] in HH.
+      destruct PL as [S0 _].
+      assert (R0 : RI s0) by (eapply ri_handler; [exact EH|intros _; exact L|intros Hc; congruence|exact Henv|exact C]).
+      rewrite S0 in HH. simpl negb in HH. rewrite andb_true_r in HH.
+      destruct ab; [eapply SHUT; [exact R0|exact HH]|].
+      cbn [bind] in HH. inversion HH; subst. unfold CI. cbn [s_shut set_out]. rewrite S0. exact R0. }
+    destruct e; try (apply (GEN _ eq_refl I Hstep));
+      match type of Hstep with (bind (do_shutdown cfg_fixed ?a s) _) = _ =>
+        destruct (shutdown_total a s) as (s2 & o2 & H2 & _ & S2); pose proof (do_shutdown_RS _ _ _ _ H2 C) as RS2;
+        rewrite H2 in Hstep; cbn [bind] in Hstep; inversion Hstep; subst; unfold CI; cbn [s_shut set_out]; rewrite S2; exact RS2 end.
+Qed.
+
+Lemma run_o_CI : forall evs s W out s' out', sinv s W -> CI s -> W + work evs < LIM -> run_o s evs out = Ok (s', out') -> CI s'.
+Proof.
+  induction evs as [|e evs IH]; intros s W out s' out' I C Hb H; simpl in H.
+  - inversion H; subst. exact C.
+  - destruct (env_ok s e) eqn:Henv; [|inversion H; subst; exact C].
+    pose proof (ev_work_nonneg e) as He.
+    assert (Hwork : 0 <= work evs) by (clear; induction evs as [|x l IHl]; simpl; [lia|pose proof (ev_work_nonneg x); lia]).
+    simpl in Hb.
+    destruct (step_ok s e W I ltac:(lia) Henv) as (s1 & o & H1 & I1). rewrite H1 in H. cbn [bind] in H.
+    eapply (IH s1 (W + ev_work e)); [exact I1| |lia|exact H].
+    eapply step_CI; [exact I| exact C| |exact Henv|exact H1]. lia.
+Qed.
+
+Lemma HND_zero : forall j l, (forall h, In h l -> h <> HCap (CLocal j)) -> HND j l = 0.
+Proof.
+  intros j l H. induction l as [|h l IH]; simpl; [reflexivity|]. rewrite IH by (intros h' Hh'; apply H; right; exact Hh').
+  destruct h as [q|x|]; simpl; try reflexivity. destruct x; simpl; try reflexivity. destruct (j0 =? j) eqn:E; [|reflexivity].
+  exfalso. apply (H (HCap (CLocal j0))); [left; reflexivity|]. f_equal. f_equal. lia.
+Qed.
+
+(* C07 close_releases_all over histories.  [s_lrefs] counts the references held on local server j.
+   While the connection is up it equals, exactly, what the tables hold: the bootstrap capability,
+   the exports whose client is j, the capabilities j in the arguments and result tables of the
+   answers, the handles resolved to j and the embargoes on j ([RC]); every embargo's reference
+   count is the number of handles that name it.  After Close (or an Abort) every table is empty
+   and the count is exactly the number of application handles still resolved to j -- so a server
+   none of whose handles is left has count 0: every reference the connection ever took has been
+   given back, once (the equation holds at every step, the count never runs ahead of the holders). *)
+Theorem close_releases_all : forall boot evs s out, work evs < LIM -> run_o (init boot) evs [] = Ok (s, out) ->
+  (s_shut s = false -> forall j, cget j (s_lrefs s) = RC j s) /\
+  (s_shut s = true -> s_qs s = [] /\ s_ans s = [] /\ s_exp s = [] /\ s_emb s = [] /\ s_boot s = false /\
+                      forall j, cget j (s_lrefs s) = HND j (s_handles s)) /\
+  (s_shut s = true -> forall j, (forall h, In h (s_handles s) -> h <> HCap (CLocal j)) -> cget j (s_lrefs s) = 0).
+Proof.
+  intros boot evs s out Hb H.
+  pose proof (run_o_CI evs (init boot) 0 [] s out (sinv_init boot) (CI_init boot) ltac:(lia) H) as C. unfold CI in C.
+  split; [|split].
+  - intros Hs j. rewrite Hs in C. destruct C as (Hx & _). specialize (Hx j). unfold X in Hx. lia.
+  - intros Hs. rewrite Hs in C. destruct C as (Q & A & E & M & B & L & Z). repeat split; assumption.
+  - intros Hs j Hh. rewrite Hs in C. destruct C as (_ & _ & _ & _ & _ & L & _). rewrite L. apply HND_zero. exact Hh.
+Qed.
